@@ -58,7 +58,7 @@ def hx(b):
 def gen_cases(tier, seed):
     rnd = random.Random(seed * 15485863 + 20)
     cases = []
-    reps = 2 if tier == "quick" else 40
+    reps = 2 if tier == "quick" else 80
     for rep in range(reps):
         for kind in KINDS:
             for (nodes, ppn) in LAYOUTS:
